@@ -45,6 +45,20 @@ def cases(tier, rng):
     out = []
     for i in range(n_cases):
         out.append({"kind": "pairs", "n": per, "scene_seed": int(rng.integers(1 << 30)), "force": i % 8, "third": tier != "quick"})
+    # mode sources: the eigenmode of a lossy cross-section is complex, that of a lossless one real; both are injected
+    # through their own path (built with the public helpers, not the scene DSL)
+    for i in range(2 if tier == "quick" else 8):
+        out.append(
+            {
+                "kind": "mode_source",
+                "n": 1,
+                "sigma": [2.0e4, 0.0, 5.0e3, 8.0e4][i % 4],
+                "pol": ["te", "tm"][(i // 2) % 2],
+                "direction": "+-"[(i // 4) % 2],
+                "core_cells": int(rng.integers(4, 7)),
+                "steps_fs": float(rng.uniform(12.0, 20.0)),
+            }
+        )
     return out
 
 
@@ -96,10 +110,90 @@ def run_case(case):
     from vf.result import Res
 
     r = Res()
+    if case.get("kind") == "mode_source":
+        _mode_source(case, r)
+        return r.to_dict()
     for j in range(case["n"]):
         scene, tags = _gen(case, j)
         _pair(r, scene, tags, case, j, third=bool(case.get("third")) and j % 4 == 1)
     return r.to_dict()
+
+
+def _mode_source(case, r):
+    """ModePlaneSource in a (lossy or lossless) slab waveguide, PML on x/z, periodic y: real vs forced complex storage."""
+    import warnings
+
+    import numpy as np
+
+    from vf import bootstrap
+
+    fdtdx = bootstrap.ensure()
+    import jax
+    import jax.numpy as jnp
+
+    res, pml, wl = 50e-9, 5, 1.55e-6
+
+    def run(use_complex):
+        config = fdtdx.SimulationConfig(grid=fdtdx.UniformGrid(spacing=res), time=case["steps_fs"] * 1e-15, dtype=jnp.float64, use_complex_fields=use_complex)
+        volume = fdtdx.SimulationVolume(partial_grid_shape=(30, 3, 30))
+        objs, cons = [volume], []
+        bcfg = fdtdx.BoundaryConfig.from_uniform_bound(thickness=pml, override_types={"min_y": "periodic", "max_y": "periodic"})
+        bd, cl = fdtdx.boundary_objects_from_config(bcfg, volume)
+        objs += list(bd.values())
+        cons += cl
+        clad = fdtdx.UniformMaterialObject(name="cladding", partial_real_shape=(None, None, None), material=fdtdx.Material(permittivity=2.25))
+        cons += list(clad.same_position_and_size(volume))
+        objs.append(clad)
+        core = fdtdx.UniformMaterialObject(
+            name="core", partial_grid_shape=(None, None, case["core_cells"]), material=fdtdx.Material(permittivity=12.25, electric_conductivity=case["sigma"])
+        )
+        cons += [core.same_size(volume, axes=(0, 1)), core.place_at_center(volume, axes=(0, 1, 2))]
+        objs.append(core)
+        wave = fdtdx.WaveCharacter(wavelength=wl)
+        src = fdtdx.ModePlaneSource(partial_grid_shape=(1, None, None), wave_character=wave, direction=case["direction"], mode_index=0, filter_pol=case["pol"])
+        x_src = pml + 2 if case["direction"] == "+" else 30 - pml - 3
+        cons += [src.same_size(volume, axes=(1, 2)), src.place_at_center(volume, axes=(1, 2)), src.set_grid_coordinates(axes=(0,), sides=("-",), coordinates=(x_src,))]
+        objs.append(src)
+        x_det = 15
+        en = fdtdx.EnergyDetector(name="energy", reduce_volume=True, plot=False)
+        cons += list(en.same_position_and_size(volume))
+        objs.append(en)
+        fl = fdtdx.PoyntingFluxDetector(name="flux", partial_grid_shape=(1, None, None), direction="+", reduce_volume=True, plot=False)
+        cons += [fl.same_size(volume, axes=(1, 2)), fl.place_at_center(volume, axes=(1, 2)), fl.set_grid_coordinates(axes=(0,), sides=("-",), coordinates=(x_det,))]
+        objs.append(fl)
+        ph = fdtdx.PhasorDetector(name="phasor", partial_grid_shape=(1, None, None), wave_characters=(wave,), reduce_volume=False, plot=False, dtype=jnp.complex128)
+        cons += [ph.same_size(volume, axes=(1, 2)), ph.place_at_center(volume, axes=(1, 2)), ph.set_grid_coordinates(axes=(0,), sides=("-",), coordinates=(x_det,))]
+        objs.append(ph)
+        key = jax.random.PRNGKey(0)
+        with warnings.catch_warnings():
+            warnings.simplefilter("ignore")
+            oc, arrays, params, config, _ = fdtdx.place_objects(object_list=objs, config=config, constraints=cons, key=key)
+            arrays, oc, _ = fdtdx.apply_params(arrays, oc, params, key)
+            _, arrays = fdtdx.run_fdtd(arrays=arrays, objects=oc, config=config, key=key, show_progress=False)
+        return arrays, oc.sources[0]
+
+    a_r, src = run(None)
+    a_c, _ = run(True)
+    r.count("pairs")
+    r.count("mode_source_pairs")
+    wit = {"case": case}
+    if jnp.iscomplexobj(a_r.fields.E) or not jnp.iscomplexobj(a_c.fields.E):
+        r.inconclusive("mode-source pair: storage types are not (real, complex)")
+        return
+    prof = np.asarray(src._E)
+    mode_im = float(np.abs(prof.imag).max() / max(np.abs(prof).max(), 1e-300)) if np.iscomplexobj(prof) else 0.0
+    r.branch("mode_profile:" + ("complex" if mode_im > 1e-6 else "real"))
+    sig = ("mode_source", case["pol"], case["direction"], mode_im > 1e-6)
+    for nm in ("E", "H"):
+        fr, fc = np.asarray(getattr(a_r.fields, nm)), np.asarray(getattr(a_c.fields, nm))
+        if not float(np.abs(fr).max()) > 0:
+            r.inconclusive("mode source injected nothing")
+            return
+        r.check_close("re_" + nm, fc.real, fr, RTOL, what=f"mode source: Re({nm}) of the complex-storage run differs from the real-valued run", witness=wit, sig=sig)
+        r.check_close("im_" + nm, fc.imag, np.zeros_like(fr), RTOL, what=f"mode source: Im({nm}) of the complex-storage run is not zero", witness=wit, sig=sig, atol=RTOL * float(np.abs(fr).max()))
+    for det, key_ in (("energy", "energy"), ("flux", "poynting_flux"), ("phasor", "phasor")):
+        r.check_close("det_" + det, np.asarray(a_c.detector_states[det][key_]), np.asarray(a_r.detector_states[det][key_]), RTOL, what=f"mode source: detector {det} differs between complex and real storage", witness=wit, sig=sig)
+    r.sample = {"case": case, "mode_profile_imag_fraction": mode_im}
 
 
 def _scene_sig(scene, tags):
